@@ -82,12 +82,36 @@ def prop(case, res):
 SUBS = {'c17': prop}
 
 
+def both_classes(c):
+    """Digits and upper case letters for a position holding either (alphanumeric payloads), else the character's class."""
+    if c.isascii() and (c.isdigit() or c.isupper()):
+        return gen.cls(c) + ''.join(x for x in '0123456789ABCDEFGHIJKLMNOPQRSTUVWXYZ' if x not in gen.cls(c))
+    return gen.cls(c)
+
+
 def shard(a):
     res = core.Result()
     name = a['mod']
     # every corpus number first (deterministic, complete), then synthesised ones
     for v in gen.pool(name)[:a['npool']]:
         prop({'mod': name, 'x': v}, res)
+    # the two characters before the last one run through every pair of their classes (check character repaired): every
+    # value of the running checksum, and with it every check character, occurs (a check of 0 / 10 / 'X' / a digit where
+    # the corpus shows a letter)
+    for v in gen.pool(name)[:1]:
+        if len(v) < 5:
+            continue
+        p1, p2 = len(v) - 3, len(v) - 2
+        if not (gen.cls(v[p1]) and gen.cls(v[p2])):
+            continue
+        done = set()
+        for c1 in both_classes(v[p1]):
+            for c2 in both_classes(v[p2]):
+                w = gen.synth(name, v[:p1] + c1 + c2 + v[p2 + 1:], [(p1, c1), (p2, c2)])
+                if w and w[p1:p2 + 1] == c1 + c2 and w not in done:
+                    done.add(w)
+                    res.hist['pair-sweep:' + name] += 1
+                    prop({'mod': name, 'x': w}, res)
     strat = st.fixed_dictionaries({'mod': st.just(name), 'x': gen.valid_numbers(name, raw_fraction=20)})
     core.drive(prop, strat, a['n'], (a['seed'], 'C17', name), res, shrink_skip=a['known'])
     return res
